@@ -15,7 +15,44 @@ def spec_cursor():
         ('cursor_rowcount', C.rowcount.fget, 'beanquery.cursor.Cursor.rowcount'),
         ('cursor_rownumber', C.rownumber.fget, 'beanquery.cursor.Cursor.rownumber'),
         ('cursor_description', C.description.fget, 'beanquery.cursor.Cursor.description'),
+    ] + spec_cursor_api()
+
+
+def spec_cursor_api():
+    """C10 (bld-api): the state-changing half of the Cursor API and Column's sequence protocol."""
+    from beanquery import cursor
+    C, Col = cursor.Cursor, cursor.Column
+    out = [
+        ('cursor_init', C.__init__, 'beanquery.cursor.Cursor.__init__'),
+        ('cursor_execute', C.execute, 'beanquery.cursor.Cursor.execute'),
+        ('cursor_connection', C.connection.fget, 'beanquery.cursor.Cursor.connection'),
+        ('column_init', Col.__init__, 'beanquery.cursor.Column.__init__'),
+        ('column_len', Col.__len__, 'beanquery.cursor.Column.__len__'),
+        ('column_getitem', Col.__getitem__, 'beanquery.cursor.Column.__getitem__'),
     ]
+    for nm in column_var_names():
+        out.append((f'column_prop_{nm}', getattr(Col, nm).fget, f'beanquery.cursor.Column.{nm}'))
+    return out
+
+
+def column_var_names():
+    """the attribute names behind the class attribute Column._vars (a tuple of operator.attrgetter objects)"""
+    import operator
+    from beanquery import cursor
+    names = []
+    for g in cursor.Column._vars:
+        fn, args = g.__reduce__()
+        if fn is not operator.attrgetter or len(args) != 1 or '.' in args[0]:
+            raise py2mini.Untranslatable(f'Column._vars item {g!r} is not a plain attrgetter')
+        names.append(args[0])
+    return names
+
+
+def extra_cursor():
+    names = column_var_names()
+    return ('\n(* beanquery.cursor.Column._vars: the attribute each attrgetter reads, and the translated property *)\n'
+            'Definition column_vars : list (string * fdef) :=\n  ' +
+            py2mini.glist([f'({py2mini.gstr(n)}, column_prop_{n})' for n in names]) + '.\n')
 
 
 def spec_eval():
@@ -66,13 +103,58 @@ def wrapper_census():
     return {'wrapped_overloads': n_wrapped, 'distinct_wrapper_code_objects': len(codes), 'class_overloads': n_other}
 
 
-GROUPS = {'cursor': ('SrcCursor.v', spec_cursor), 'eval': ('SrcEval.v', spec_eval)}
+# group -> (generated file, spec function[, options]); options: 'prims' (qualified names translated to XPrim),
+# 'translator' (a FuncTranslator subclass), 'extra' (function returning Coq text appended to the generated file)
+GROUPS = {'cursor': ('SrcCursor.v', spec_cursor, {'extra': extra_cursor}), 'eval': ('SrcEval.v', spec_eval)}
+
+
+def _register_exec():
+    """C03/C01/C15/C02 (bld-exec): the executor core of query_execute.py; spec and synthetic translators in src_exec.py"""
+    from . import src_exec
+    GROUPS['exec'] = ('SrcExec.v', src_exec.spec_exec, {'translator': src_exec.ExecTranslator, 'prims': src_exec.PRIMS})
+
+
+_register_exec()
+
+
+def _register_api():
+    """C09/C07/C19 (bld-api): groups params, naming, shell; specs and translator rules in src_api.py"""
+    from . import src_api
+    src_api.register(GROUPS)
+
+
+_register_api()
+
+
+def _register_env():
+    """C18 (bld-env): the scalar function library of query_env.py; spec and translators in src_env.py"""
+    from . import src_env
+    GROUPS['env'] = ('SrcEnv.v', src_env.spec_env, {'translator': src_env.EnvTranslator, 'prims': src_env.PRIMS})
+
+
+_register_env()
+
+
+def _register_ledger():
+    """C11-C14 (bld-ledger): the ledger-facing cores (BeanTable.prepare, the table iterators, the balance column,
+    execute_print's selection loop, transform_balances/journal); specs and translator rules in src_ledger.py"""
+    from . import src_ledger
+    GROUPS.update(src_ledger.GROUPS)
+
+
+_register_ledger()
 
 
 def generate(group):
     """Regenerate coq/Gen/Src<Group>.v from the live source; raises py2mini.Untranslatable (fail closed)."""
-    fname, spec = GROUPS[group]
-    text, info = py2mini.translate_all(spec())
+    fname, spec, *rest = GROUPS[group]
+    opts = rest[0] if rest else {}
+    if 'translator' in opts:
+        text, info = opts['translator'].translate_all(spec(), prims=opts.get('prims', ()))
+    else:
+        text, info = py2mini.translate_all(spec(), prims=opts.get('prims', ()))
+    if 'extra' in opts:
+        text += opts['extra']()
     changed = core.write_if_changed(os.path.join(core.COQ, 'Gen', fname), text)
     out = {f'src_{group}_translated_functions': sorted(info), f'src_{group}_regenerated': changed,
            f'src_{group}_source_lines_translated': sum(v['lines'] for v in info.values())}
